@@ -69,7 +69,7 @@ fn extreme_tree() -> BoxedStrategy<sdjwt_model::tree::MNode> {
 
 pub fn strategy() -> BoxedStrategy<Case> {
     let tree = prop_oneof![
-        12 => claims_and_strategy(ClaimCfg::SHORT_F64, HONEST_PATHS).prop_map(|(claims, strat)| mark(&claims, &strat).unwrap()),
+        12 => claims_and_strategy(ClaimCfg::FULL, HONEST_PATHS).prop_map(|(claims, strat)| mark(&claims, &strat).unwrap()),
         2 => extreme_tree(),
     ];
     (
